@@ -1,6 +1,6 @@
 """Driver (fresh interpreter, emitted tree on sys.path): compile, inspect and EXECUTE every emitted sample.
 
-payload: {api, module, root_module, pkg, services: [{name, snake}], rpcs: {RpcName: {form, req: full name}},
+payload: {api, module, root_module, pkg, services: [{name, snake}], rpcs: {RpcName: {form, req: full name, reqs: {Service: full name}}},
           book, list_resp: full names of the reply types}
 result : {samples: {file: OBS}, metadata: {file, entries: [..]} | null, clients: {..}, errors: [..]}
 
@@ -163,6 +163,11 @@ class World:
                 self.paths[f"/{pl['pkg']}.{s['name']}/{r}"] = (s['name'], r)
                 self.paths[f"/v1/{s['snake']}/{r}"] = (s['name'], r)
 
+    def req_type(self, service, rpc):
+        """request message of the RPC in THIS service (services may share RPC names with different requests)."""
+        r = self.pl['rpcs'][rpc]
+        return (r.get('reqs') or {}).get(service) or r['req']
+
     # replies, built from the input descriptors
     def reply_dicts(self, rpc):
         form = self.pl['rpcs'][rpc]['form']
@@ -231,13 +236,13 @@ class World:
 
     def http_responder(self, entry):
         path = entry['path']
-        rpc = self.paths.get(path, (None, None))[1]
+        svc, rpc = self.paths.get(path, (None, None))
         ent = dict(epoch=self.epoch, path=path, reqs=[], via='http', body=entry['body'], query=entry['query'])
         with self.lock:
             self.calls.append(ent)
         if rpc is None:
             return 404, b'{}', {}
-        m = self.pool.cls(self.pl['rpcs'][rpc]['req'])()
+        m = self.pool.cls(self.req_type(svc, rpc))()
         try:
             if entry['body']:
                 json_format.Parse(entry['body'].decode(), m, descriptor_pool=self.pool.pool)
@@ -318,7 +323,7 @@ def execute(w, path, text, repeat=3):
             for raw in c['reqs']:
                 if not svc_rpc:
                     reqs.append(['?unknown-path']); continue
-                m = w.pool.cls(w.pl['rpcs'][svc_rpc[1]]['req'])()
+                m = w.pool.cls(w.req_type(svc_rpc[0], svc_rpc[1]))()
                 try:
                     m.ParseFromString(raw)
                     reqs.append(populated_paths(m))
